@@ -1357,6 +1357,44 @@ fn step_two(rec: &mut Rec, d: &mut ConnDriver, chunk: &[u8], act: u8, t: &mut Ve
     }
 }
 
+/// an over-long line whose 1024th byte is CR (or LF, or any byte), rejected; the next read begins with LF (or CR LF, or
+/// anything): nothing of the rejected line — not even "its" missing terminator — colours what follows
+pub fn c11_long_line_ending_in_cr(rec: &mut Rec, rng: &mut Rng) {
+    for in_header in [false, true] {
+        for last in [b'\r', b'\n', b'x'] {
+            for cont in [&b"\nGET /after HTTP/1.1\r\n\r\n"[..], b"\r\nGET /after HTTP/1.1\r\n\r\n", b"GET /after HTTP/1.1\r\n\r\n", b"\n\r\nGET /after HTTP/1.1\r\n\r\n"] {
+                rec.case("long-line-ending-in-cr");
+                rec.nontrivial();
+                let mut d = ConnDriver::new(rec, 51200);
+                if in_header {
+                    d.recv(rec, b"GET /rejected HTTP/1.1\r\n", 0);
+                    let mut l = b"X: ".to_vec();
+                    l.extend(std::iter::repeat(b'x').take(1020));
+                    l.push(last);
+                    d.recv(rec, &l, 0);
+                } else {
+                    let mut l = b"GET /".to_vec();
+                    l.extend(std::iter::repeat(b'u').take(1018));
+                    l.push(last);
+                    d.recv(rec, &l, 0);
+                }
+                d.popall(rec);
+                let chunks = vec![cont.to_vec()];
+                let t1 = transcript(&mut d, rec, &chunks);
+                let mut fresh = ConnDriver::new(rec, 51200);
+                let t2 = transcript(&mut fresh, rec, &chunks);
+                if t1 != t2 {
+                    let mut l = d.log.clone();
+                    l.push("# fresh connection fed the same continuation:".to_string());
+                    l.extend(fresh.log.iter().cloned());
+                    rec.oracle_fail("C11", &format!("after an over-long line ending in byte {:#04x} the connection behaves differently from a new one: {:?} vs {:?}", last, t1, t2), &l);
+                }
+            }
+        }
+    }
+    let _ = rng;
+}
+
 /// descriptors around a rejected request: those that arrived with the rejected input are closed BY the read that reports
 /// the error (not by a later one), and descriptors arriving with the next request are delivered with it as on a new
 /// connection
@@ -1433,6 +1471,7 @@ pub fn c11(rec: &mut Rec, rng: &mut Rng, thorough: bool) {
     for _ in 0..4 {
         c11_descriptors_around_rejection(rec, rng);
     }
+    c11_long_line_ending_in_cr(rec, rng);
     regress_f1(rec);
     // many rejections: few / many header lines, short / long values (up to ~100 KiB of rejected header bytes in all)
     for (k, lines, vlen) in [(40usize, 2usize, 8usize), (200, 1, 4), (150, 4, 200), (30, 20, 40)] {
